@@ -98,5 +98,7 @@ Next == st.ph = "inst" /\ \E s \in Strings(Grammar(st.d)) : st' = [ph |-> "str",
 BasesAccepted == st.ph = "inst" =>
    \A fp \in Expand(Grammar(st.d)) : (\A i \in 1..Len(fp) : fp[i].k = "const" => fp[i].b < 9) =>
         Dec(Grammar(st.d), CatAll([i \in 1..Len(fp) |-> ValidItem(fp[i], 2)]))
-EmitInv == st.ph = "str" => PrintT(<<"REPLAY", ToJson([d |-> st.d, bytes |-> st.bytes, ok |-> st.ok, implied |-> Implied(Grammar(st.d))])>>)
+\* the two decoders of the spec agree: a string is an encoding iff the prefix decoder consumes all of it
+DecLenAgrees == st.ph = "str" => (st.ok = (DecLen(Grammar(st.d), st.bytes) = Len(st.bytes)))
+EmitInv == st.ph = "str" => PrintT(<<"REPLAY", ToJson([d |-> st.d, bytes |-> st.bytes, ok |-> st.ok, plen |-> DecLen(Grammar(st.d), st.bytes), implied |-> Implied(Grammar(st.d))])>>)
 =============================================================================
